@@ -110,12 +110,20 @@ fn offer_all<B: Backend>(rec: &mut Recorder, items: &[Item]) -> u64 {
         let body_txt = it.text.rsplit('.').next().unwrap_or("");
         let body_txt = if it.kind.starts_with("token") { it.text.split('.').nth(2).unwrap_or("") } else { body_txt };
         let Some(body) = crate::b64::dec(body_txt) else { continue };
-        for (dst_kind, hdr) in [("key.local", ".local."), ("key.public", ".public."), ("key.secret", ".secret.")] {
+        for (dst_kind, hdr) in [("key.local", ".local."), ("key.public", ".public."), ("key.secret", ".secret."), ("key.pkepublic", ".public."), ("key.pkesecret", ".secret."),
+                                ("id.lid", ".lid."), ("id.pid", ".pid."), ("id.sid", ".sid."), ("id.pkepid", ".pid."), ("id.pkesid", ".sid.")] {
             let text = format!("{k}{hdr}{body_txt}");
             let r = match dst_kind {
                 "key.local" => try_parse::<Key<B::V, Local>>(&text),
                 "key.public" => try_parse::<Key<B::V, Public>>(&text),
-                _ => try_parse::<Key<B::V, Secret>>(&text),
+                "key.secret" => try_parse::<Key<B::V, Secret>>(&text),
+                "key.pkepublic" => try_parse::<Key<B::V, PkePublic>>(&text),
+                "key.pkesecret" => try_parse::<Key<B::V, PkeSecret>>(&text),
+                "id.lid" => try_parse::<KeyId<B::V, Local>>(&text),
+                "id.pid" => try_parse::<KeyId<B::V, Public>>(&text),
+                "id.sid" => try_parse::<KeyId<B::V, Secret>>(&text),
+                "id.pkepid" => try_parse::<KeyId<B::V, PkePublic>>(&text),
+                _ => try_parse::<KeyId<B::V, PkeSecret>>(&text),
             };
             rec.emit(json!({"fn":"xbody","src_be":it.be,"src_kind":it.kind,"dst_be":B::NAME,"dst_ver":B::VER,"dst_kind":dst_kind,"body_len":body.len(),"result":r,"ok":r == "ok"}));
             n += 1;
